@@ -142,13 +142,33 @@ def model_tokens(out, dirs):
         toks.append('D=' + hx(d))
     for u in pwd.getpwall():
         toks.append('U=%s:%d' % (hx(u.pw_name), u.pw_uid))
-    for h in HANDLER_SPECS:
+    specs = list(HANDLER_SPECS)
+    for sname in p.sections():          # importlib is a parameter of the model: which of the file's specs resolve
+        if sname.startswith('eventlistener:') and p.has_option(sname, 'result_handler'):
+            v = p.get(sname, 'result_handler')
+            if v not in specs and '%' not in v and _resolves(v):
+                specs.append(v)
+    for h in specs:
         toks.append('R=' + hx(h))
     for s in p.sections():
         toks.append('S=' + hx(s))
         for k, v in p.items(s):
             toks.append('O=%s:%s' % (hx(k), hx(v)))
     return toks
+
+
+def _resolves(spec):
+    st = _classes()
+    try:
+        obj = st['so'].import_spec(spec)
+    except Exception:
+        return False
+    handler_spec(None)
+    try:
+        _state['handlers'].setdefault(obj, spec)
+    except TypeError:
+        return False
+    return True
 
 
 def _lf(v):
